@@ -291,6 +291,11 @@ func vHeld(mu interface{}) bool                  { return true }
 // scenario with real goroutines and calls vStressFail when it sees the failure.
 func vPreemptAtLocks(n int) {}
 
+// vConcreteClock(stepNs): under the engine the clock reads of repository code
+// return concrete instants stepNs apart instead of symbolic ones (for harnesses
+// whose subject is not time; natively the replayed clock advances by 1 ns per read).
+func vConcreteClock(stepNs int64) {}
+
 // vPreemptOn(&mu): restrict the scheduling decisions to acquisitions of the named
 // mutexes (those of the objects the goroutines share).
 func vPreemptOn(mu interface{}) {}
